@@ -7,8 +7,9 @@ EXPLANATION = ("Decides the lock-scope skeleton for all interleavings at once: i
                "add_document, delete_documents, commit, rollback, Index::compact) the writer_lock mutex is acquired and every "
                "call or store with a log, storage, manifest-lock or queue/live-docs effect lies inside its region on every "
                "path; in commit the manifest snapshot and the live-doc refresh are taken inside the region and the cached map "
-               "is reused only under the generation comparison. Whether the queue-per-handle design is serializable at the "
-               "history level is not decided.")
+               "is reused only under the generation comparison; and since that comparison is the only staleness test, every segment "
+               "published by commit / compact carries a generation of 1 + max over ALL manifest segments (no subset-forming "
+               "adapter in the slice). Whether the queue-per-handle design is serializable at the history level is not decided.")
 
 QUEUE_FIELDS = {"pending_ops", "live_docs", "live_generation"}
 
